@@ -178,8 +178,13 @@ func (w *c10Worker) run(res *runner.CaseResult, idx int, seed int64, withDedup b
 	if flavour == 2 {
 		for i, r := range stale {
 			if i%2 == 0 {
+				withPres := i%4 == 0
 				_ = r.Update(func(root *yjson.Object, p *presence.Presence) error {
 					root.SetString("stale-"+r.Name, "unsent")
+					if withPres {
+						// an edit that also moves the cursor: one change with operations AND presence
+						p.Set("cur", "stale")
+					}
 					return nil
 				})
 				unsent[r.Name] = true
@@ -207,10 +212,17 @@ func (w *c10Worker) run(res *runner.CaseResult, idx int, seed int64, withDedup b
 		pre, _ := w.meta(world)
 		kind := []string{"sync", "pushonly", "detach", "remove"}[(i+idx)%4]
 		if kind == "pushonly" || (kind == "sync" && i%2 == 1) {
+			flav := (i + idx/4) % 3 // operations only / operations and presence / presence only
 			_ = r.Update(func(root *yjson.Object, p *presence.Presence) error {
-				root.SetString("stale-"+r.Name, "unsent")
+				if flav != 2 {
+					root.SetString("stale-"+r.Name, "unsent")
+				}
+				if flav != 0 {
+					p.Set("cur", "stale")
+				}
 				return nil
 			})
+			res.AddSet("stale_unsent_change_kinds", []string{"operations", "operations+presence", "presence"}[flav])
 			unsent[r.Name] = true
 		}
 		var e error
@@ -264,14 +276,25 @@ func (w *c10Worker) run(res *runner.CaseResult, idx int, seed int64, withDedup b
 		return
 	}
 	// (5) new generation grows, second fresh attach, second compaction
-	for k := 0; k < 3+rng.Intn(6); k++ {
+	grow := 3 + rng.Intn(6)
+	if rng.Intn(3) == 0 {
+		// the new generation outgrows the old one: its server sequence passes the old head
+		// before anything rebuilds the document (whatever still remembers the old
+		// generation by server sequence alone is then asked about a sequence it knows)
+		grow = int(m1.serverSeq) + 1 + rng.Intn(4)
+		if grow > 80 {
+			grow = 80
+		}
+		res.AddStat("second_generation_outgrows_the_first", 1)
+	}
+	for k := 0; k < grow; k++ {
 		conts := gen.Scan(f1.Doc.Root().Object, 3)
 		e := g.Profile.Next(rng, conts, "fresh")
 		if !g.Guard(world, nrep, &e) {
 			continue
 		}
 		world.Exec(sim.Step{T: "edit", R: nrep, E: []gen.Edit{e}})
-		if rng.Intn(2) == 0 {
+		if rng.Intn(2) == 0 || grow > 9 {
 			world.Exec(sim.Step{T: "sync", R: nrep})
 		}
 	}
